@@ -32,15 +32,7 @@ Qed.
 
 (* ------------------------------------------------------------ paths *)
 
-Fixpoint prefix (p q : path) : bool :=
-  match p, q with
-  | [], _ => true
-  | _ :: _, [] => false
-  | x :: p', y :: q' => N.eqb x y && prefix p' q'
-  end.
-
-(* two target paths overlap: one equals or is a prefix of the other *)
-Definition conflict (p q : path) : bool := prefix p q || prefix q p.
+(* [prefix] and [conflict] (one path equals or is a prefix of the other) are defined in Model/FieldMap.v *)
 
 Lemma conflict_sym : forall p q, conflict p q = conflict q p.
 Proof. intros. unfold conflict. apply orb_comm. Qed.
